@@ -45,8 +45,20 @@ fn val(rng: &mut Rng) -> Vec<u8> {
 }
 
 /// a dominated value as a peer could send it (register / field stamps ≤ outer stamp)
+/// Lamport times at which a narrower integer type / a signed or float conversion would change
+/// the clock arithmetic (`update` = max + 1 is taken just below, at and above them)
+const EDGE_TIMES: [u64; 8] = [(1 << 31) - 1, (1 << 32) - 3, (1 << 32) - 1, 1 << 32, (1 << 53) - 1, 1 << 53, (1 << 63) - 2, 1 << 63];
+
 fn peer_value(rng: &mut Rng, tmax: u64) -> MRv {
-    let t = rng.below(tmax + 1);
+    let t = if rng.chance(1, 14) {
+        out_of_band_count();
+        *rng.pick(&EDGE_TIMES)
+    } else if tmax > 64 && rng.chance(2, 3) {
+        // once the clock is large, stay around it (just below / at / above the local clock)
+        tmax - rng.below(9)
+    } else {
+        rng.below(tmax + 1)
+    };
     let r = rng.range(2, 3);
     if rng.chance(1, 2) {
         let tomb = rng.chance(1, 4);
@@ -69,6 +81,11 @@ fn peer_value(rng: &mut Rng, tmax: u64) -> MRv {
         }
         MRv { crdt: MCrdt::H(h), vc: None, exp: None, t, r, rf: None }
     }
+}
+
+static EDGE_DRAWN: std::sync::atomic::AtomicU64 = std::sync::atomic::AtomicU64::new(0);
+fn out_of_band_count() {
+    EDGE_DRAWN.fetch_add(1, std::sync::atomic::Ordering::Relaxed);
 }
 
 struct Node {
@@ -313,7 +330,16 @@ pub fn run(a: &Args) {
             let mut r = rng.fork();
             system_history(&mut out, &mut r, None).await;
         }
+        // the production start-up sequence end to end: the binary's own `main`, as a child process
+        // (two restarts per history; quick: one history ending its 2nd incarnation gracefully, one by
+        // SIGKILL; thorough: more)
+        let boots = if a.tier == "thorough" { 8 } else { 2 };
+        for b in 0..boots {
+            let mut r = rng.fork();
+            crate::c08boot::boot_history(&mut out, &mut r, b % 2 == 0).await;
+        }
     });
+    out.count_n("remote:stamp-at-integer-width-boundary(2^31,2^32,2^53,2^63)", EDGE_DRAWN.load(std::sync::atomic::Ordering::Relaxed));
     mailbox_coverage(&mut out);
     // coverage of the Command enum through the replicated actor / state
     {
@@ -1144,20 +1170,42 @@ async fn system_history(out: &mut Out, rng: &mut Rng, corpus: Option<u8>) {
                 }
             }
         }
-        line.push_str(&format!(" {}", deltas.len()));
-        for d in &deltas {
+        // the start-up of bin/server_persistent.rs is TWO calls: apply_recovered_state(checkpoint,
+        // segment deltas), then apply_recovered_state(None, ALL WAL entries) — the WAL overlaps the
+        // segments (everything not yet truncated is replayed again).  Half of the restarts go that way:
+        // the deltas are split into a segment part and a WAL part that starts at or before the cut.
+        let two_phase = corpus.is_none() && !deltas.is_empty() && rng.chance(1, 2);
+        let (segs, wal): (Vec<ReplicationDelta>, Vec<ReplicationDelta>) = if two_phase {
+            let cut = rng.below(deltas.len() as u64 + 1) as usize;
+            let wal_from = rng.below(cut as u64 + 1) as usize;
+            out.count("sys:startup:two-phase");
+            if wal_from < cut {
+                out.count("sys:startup:wal-overlaps-segments");
+            }
+            (deltas[..cut].to_vec(), deltas[wal_from..].to_vec())
+        } else {
+            (deltas.clone(), Vec::new())
+        };
+        line.push_str(&format!(" {}", segs.len()));
+        let mut line2 = format!("NRECOVER 0 {}", wal.len());
+        for (phase, d) in segs.iter().map(|d| (1, d)).chain(wal.iter().map(|d| (2, d))) {
             let m = MRv::from_real(&d.value);
-            line.push_str(&format!(" {} {} {}", shard_of(&d.key), hex(d.key.as_bytes()), m.show()));
-            canon.push(format!("D {} {}", d.key, m.show()));
+            let t = format!(" {} {} {}", shard_of(&d.key), hex(d.key.as_bytes()), m.show());
+            if phase == 1 { line.push_str(&t) } else { line2.push_str(&t) }
+            canon.push(format!("{} {} {}", if phase == 1 { "D" } else { "W" }, d.key, m.show()));
             absorb(&d.key, &d.value);
             for s in stamps_of(&m) {
-                recovered.entry(shard_of(&d.key)).or_default().push((s, "recovered-delta", d.key.clone()));
+                recovered.entry(shard_of(&d.key)).or_default().push((s, if phase == 1 { "recovered-delta" } else { "recovered-wal" }, d.key.clone()));
             }
         }
         canon.sort();
         out.count(&format!("sys:split:ckpt={},deltas={}", if ckpt.as_ref().map(|c| !c.is_empty()).unwrap_or(false) { "some" } else { "none" }, if deltas.is_empty() { "none" } else { "some" }));
-        b.apply_recovered_state(ckpt, deltas);
+        b.apply_recovered_state(ckpt, segs);
         out.op(line, "ok".into());
+        if two_phase {
+            b.apply_recovered_state(None, wal);
+            out.op(line2, "ok".into());
+        }
         let mut rtext = format!("{}RESTART split={} [{}];", text, j, canon.join(" | "));
         for op in &post {
             let Some(i) = local(out, &b, &brx, op, &mut rtext).await else { continue };
